@@ -394,7 +394,7 @@ func (fr *frame) exec(in ssa.Instruction, st *State, reach string) {
 						env.vars[fv.Name()] = CVal{t, fv.Type()}
 					}
 				}
-				if al, isAlloc := i.Bindings[k].(*ssa.Alloc); !isAlloc || !singleStore(al) || !privateCell(al) {
+				if al := cellAlloc(i.Bindings[k]); al == nil || !singleStore(al) || !privateCell(al) {
 					okCells = false
 				}
 			}
@@ -736,6 +736,18 @@ func (fr *frame) execUnOp(i *ssa.UnOp, st *State, reach string) {
 		v := fc.fresh("recv", es)
 		if es == SInt && isRefType(ct.Elem()) {
 			fc.assumeAllocated(st, v)
+		}
+		if fc.c != nil && fc.c.Opts["go-sequential"] != "" && len(fr.pendingGo) > 0 {
+			// a receive from a channel that a deferred goroutine sends on is a join: the goroutine runs now
+			var keep []*ssa.Go
+			for _, g := range fr.pendingGo {
+				if g.Block().Dominates(i.Block()) && sendsOn(g, chanCell(i.X)) {
+					fr.call(g, &g.Call, st, reach)
+				} else {
+					keep = append(keep, g)
+				}
+			}
+			fr.pendingGo = keep
 		}
 		if fc.c != nil && fc.c.Opts["go-sequential"] != "" {
 			// fork/join model: the goroutines that send have already run, so a receive takes the next
@@ -1220,8 +1232,42 @@ func singleStore(a *ssa.Alloc) bool {
 }
 
 
-// consumerGoroutine: the spawned function literal calls a function whose contract is marked
-// `opt run-at-join` (it consumes a channel that has to be complete).
+// chanCell: the variable a channel value is read from (the captured cell), or the value itself.
+func chanCell(v ssa.Value) ssa.Value {
+	if u, ok := v.(*ssa.UnOp); ok && u.Op == token.MUL {
+		return u.X
+	}
+	return v
+}
+
+// sendsOn: the function literal spawned by g sends on the channel held in the given variable.
+func sendsOn(g *ssa.Go, cell ssa.Value) bool {
+	mc, ok := g.Call.Value.(*ssa.MakeClosure)
+	if !ok {
+		return false
+	}
+	f := mc.Fn.(*ssa.Function)
+	for _, b := range f.Blocks {
+		for _, in := range b.Instrs {
+			snd, ok := in.(*ssa.Send)
+			if !ok {
+				continue
+			}
+			c := chanCell(snd.Chan)
+			if fv, ok := c.(*ssa.FreeVar); ok {
+				for k, x := range f.FreeVars {
+					if x == fv && k < len(mc.Bindings) && mc.Bindings[k] == cell {
+						return true
+					}
+				}
+			}
+		}
+	}
+	return false
+}
+
+// consumerGoroutine: the spawned function literal receives from a channel, or calls a function whose
+// contract is marked `opt run-at-join` (it consumes a channel that has to be complete).
 func (fr *frame) consumerGoroutine(c *ssa.CallCommon) bool {
 	var f *ssa.Function
 	switch x := c.Value.(type) {
@@ -1235,6 +1281,9 @@ func (fr *frame) consumerGoroutine(c *ssa.CallCommon) bool {
 	}
 	for _, b := range f.Blocks {
 		for _, in := range b.Instrs {
+			if u, ok := in.(*ssa.UnOp); ok && u.Op == token.ARROW {
+				return true
+			}
 			if ci, ok := in.(ssa.CallInstruction); ok {
 				if callee := ci.Common().StaticCallee(); callee != nil {
 					if ct := fr.fc.e.specs.Funcs[fnKey(callee)]; ct != nil && ct.Opts["run-at-join"] != "" {
@@ -1245,4 +1294,42 @@ func (fr *frame) consumerGoroutine(c *ssa.CallCommon) bool {
 		}
 	}
 	return false
+}
+
+
+// cellAlloc: the local variable cell a captured variable denotes, followed through the closures that
+// pass it on; nil when it is something else.
+func cellAlloc(v ssa.Value) *ssa.Alloc {
+	for depth := 0; depth < 4; depth++ {
+		switch x := v.(type) {
+		case *ssa.Alloc:
+			return x
+		case *ssa.FreeVar:
+			fn := x.Parent()
+			parent := fn.Parent()
+			if parent == nil {
+				return nil
+			}
+			idx := -1
+			for k, fv := range fn.FreeVars {
+				if fv == x {
+					idx = k
+				}
+			}
+			v = nil
+			for _, b := range parent.Blocks {
+				for _, in := range b.Instrs {
+					if mc, ok := in.(*ssa.MakeClosure); ok && mc.Fn == fn && idx >= 0 && idx < len(mc.Bindings) {
+						v = mc.Bindings[idx]
+					}
+				}
+			}
+			if v == nil {
+				return nil
+			}
+		default:
+			return nil
+		}
+	}
+	return nil
 }
